@@ -148,6 +148,11 @@ def default_rng(seed=None):
         return StubGenerator('os_entropy')
     if isinstance(seed, StubGenerator):
         return seed
+    if isinstance(seed, Sym):
+        c = seed.const_value()
+        if c is None:
+            return StubGenerator('ssym')          # symbolic integer seed: one stream per seed value
+        seed = c
     return StubGenerator(f's{int(seed)}')
 
 
